@@ -132,12 +132,15 @@ def _record(o, label, **kw):
         return dict(kw, skip=str(ex), label=label)
     if info["aspheric_or_conic"]:
         return dict(kw, skip="conic or aspheric surface (C08 quantifies over conic-free lenses)", label=label)
-    if info["image_medium_differs"]:
-        return dict(kw, skip="image surface with its own medium", label=label)
     try:
-        E, raw = G.quiet(SR.record, o, info)
+        # an image surface with its own medium (cover glass or immersion in contact with it): the
+        # classical sums are not claimed there, the identities of the returned families are
+        E, raw = G.quiet(SR.record, o, info, small_aperture=not info["image_medium_differs"])
     except Exception as ex:
         return dict(kw, error="record: %s: %s" % (type(ex).__name__, ex), label=label)
+    E["ident"] = bool(info["image_medium_differs"])
+    if E["ident"]:
+        E["fs"] = {"kind": "none", "v": E["fs"]["v"]}
     ym = raw["ma"][0]
     keep = {"K": info["K"], "mirrors": info["mirrors"], "has_mirror": bool(info["mirrors"]),
             "zero_invariant": raw["inv"] == 0.0, "finite_object": info["finite_object"],
@@ -153,7 +156,7 @@ def record_random(args):
     seed, = args
     rnd = random.Random(seed)
     try:
-        o, meta = PX.random_lens(rnd, catalogue=True, conic_free=True, last_air=1.0, p_catalogue=0.5,
+        o, meta = PX.random_lens(rnd, catalogue=True, conic_free=True, last_air=0.85, p_catalogue=0.5,
                                  p_zero_field=0.06)
     except Exception as ex:
         return {"error": "build: %s: %s" % (type(ex).__name__, ex), "seed": seed}
